@@ -310,7 +310,7 @@ func nOf(q, t int) func(string) int {
 
 // Required coverage: every operation × direction, object type, key format, standard attribute.
 func required() []string {
-	req := []string{"messages", "messages_through_used_encoder", "cold_concurrent_encodings", "large.byte-string", "large.long-batch", "cov.ext-after-payload:req", "cov.ext-after-payload:resp", "cov.keyvalue:wrapped", "cov.keyvalue:absent", "cov.attr:custom", "cov.op:unknown",
+	req := []string{"messages", "deep_messages", "messages_through_used_encoder", "cold_concurrent_encodings", "large.byte-string", "large.long-batch", "cov.ext-after-payload:req", "cov.ext-after-payload:resp", "cov.keyvalue:wrapped", "cov.keyvalue:absent", "cov.attr:custom", "cov.op:unknown",
 		"cov.credential:0", "cov.credential:1", "cov.credential:2", "negative_bigints", "cov.message-and-async-value", "cov.ext-without-payload:resp"}
 	for _, o := range gen.Ops {
 		req = append(req, "cov.op:"+o.Name+":req", "cov.op:"+o.Name+":resp")
@@ -484,6 +484,41 @@ func LargeCase(c *core.Ctx, r *core.Rand, i int) {
 	CheckMessage(c, "C01", msg, minor, fmt.Sprintf("large message, kind %d, case %d", kind, i))
 }
 
+// DeepCase: free-form content (a custom attribute value, a vendor extension, the payload of a vendor operation)
+// nested far deeper than the structures of the specification; KMIP sets no limit.
+func DeepCase(c *core.Ctx, r *core.Rand, i int) {
+	minor := i % 5
+	depth := []int{12, 20, 28, 29, 30, 31, 32, 33, 40, 64, 100, 250}[(i/5)%12]
+	var deep ttlv.Struct = ttlv.Struct{ttlv.Value{Tag: 0x540010, Value: "deep"}}
+	for d := 0; d < depth; d++ {
+		deep = ttlv.Struct{ttlv.Value{Tag: 0x540020 + d%40, Value: deep}}
+	}
+	g := gen.New(r, gen.Mode{Minor: minor, Gate: true, Text: gen.TextBinary}, refmodel.Gates())
+	var msg any
+	switch (i / 60) % 3 {
+	case 0:
+		m := g.Request(nil)
+		m.BatchItem = append(m.BatchItem, kmip.RequestBatchItem{Operation: kmip.OperationAddAttribute,
+			RequestPayload: &payloads.AddAttributeRequestPayload{UniqueIdentifier: "d", Attribute: kmip.Attribute{AttributeName: "x-deep", AttributeValue: deep}}})
+		m.Header.BatchCount = int32(len(m.BatchItem))
+		msg = &m
+	case 1:
+		m := g.Response(nil)
+		m.BatchItem = append(m.BatchItem, kmip.ResponseBatchItem{Operation: kmip.OperationActivate, ResultStatus: kmip.ResultStatusSuccess,
+			ResponsePayload: &payloads.ActivateResponsePayload{UniqueIdentifier: "d"}, MessageExtension: &kmip.MessageExtension{VendorIdentification: "verif", VendorExtension: deep}})
+		m.Header.BatchCount = int32(len(m.BatchItem))
+		msg = &m
+	default:
+		m := g.Request(nil)
+		m.BatchItem = append(m.BatchItem, kmip.RequestBatchItem{Operation: kmip.Operation(0x80000042), RequestPayload: kmip.NewUnknownPayload(kmip.Operation(0x80000042), deep...)})
+		m.Header.BatchCount = int32(len(m.BatchItem))
+		msg = &m
+	}
+	c.Count("deep_messages", 1)
+	c.Count(fmt.Sprintf("deep_messages.depth%d", depth), 1)
+	CheckMessage(c, "C01", msg, minor, fmt.Sprintf("free-form content nested %d levels, case %d", depth, i))
+}
+
 func Spec() *core.Spec {
 	_ = kmip.V1_4
 	return &core.Spec{
@@ -498,6 +533,7 @@ func Spec() *core.Spec {
 		Families: []core.Family{
 			{Name: "messages", N: nOf(54000, 4050000), Run: RunCase},
 			{Name: "large", N: nOf(88, 4400), Run: LargeCase},
+			{Name: "deep", N: nOf(180, 3600), Run: DeepCase},
 			{Name: "cold-concurrent", Isolated: true, N: nOf(10, 300), Run: ColdConcurrent, Timeout: 60 * time.Second},
 		},
 	}
